@@ -390,3 +390,115 @@ def recipe_sig(recipe):
     from cv.acc import h
 
     return h(recipe)
+
+
+# ----------------------------------------------------------------------------
+# models with every attribute class, for the I/O properties (C10, C11) and C12
+# ----------------------------------------------------------------------------
+ID_STYLES = ["plain", "punct", "leading-digit", "unicode", "sbml-prefix-like", "escape-like", "dash-dot", "brackets"]
+
+
+def style_id(rng, base, style):
+    if style == "plain":
+        return base
+    if style == "punct":
+        ch = rng.choice([".", "-", ":", "/", "+", ",", "'", "=", "*", "#", "@", "!", "~"])
+        k = rng.randint(1, max(1, len(base) - 1))
+        return base[:k] + ch + base[k:]
+    if style == "leading-digit":
+        return rng.choice(["1", "2", "00"]) + base
+    if style == "unicode":
+        return base + rng.choice(["é", "β", "ü", "√"])
+    if style == "sbml-prefix-like":
+        return rng.choice(["R_", "M_", "G_", "_"]) + base
+    if style == "escape-like":
+        return base + rng.choice(["__46__x", "__45__", "_DOT_y", "__", "___"])
+    if style == "dash-dot":
+        return base.replace("_", rng.choice(["-", ".", "__"]))
+    if style == "brackets":
+        return base + rng.choice(["(e)", "[c]", "(1)"])
+    return base
+
+
+ANNOTATIONS = [
+    {"kegg.compound": "C00031"},
+    {"chebi": ["CHEBI:17634", "CHEBI:4167"], "kegg.compound": "C00031"},
+    {"bigg.reaction": "PFK", "ec-code": ["2.7.1.11", "2.7.1.90"]},
+    {"sbo": "SBO:0000176"},
+    {"sbo": "SBO:0000247", "metanetx.chemical": "MNXM41"},
+    {"uniprot": ["P0A796"], "ncbigene": "948412"},
+]
+NOTES = [{"note": "plain text"}, {"source": "generated", "confidence": "3"}, {"GENE_ASSOCIATION": "see rule"}]
+
+
+def io_model(rng, id_styles=None, with_groups=True, finite=False):
+    """Returns (model, recipe-with-final-ids).  Every attribute class the I/O properties
+    list is populated with some probability."""
+    import cobra
+
+    rec = network(rng, size=rng.randint(1, 2), genes=rng.randint(0, 4), finite=finite, gene_ids=rng.sample(AWKWARD_IDS + PLAIN_IDS, 4))
+    styles = id_styles or [rng.choice(ID_STYLES) if rng.random() < 0.6 else "plain"]
+    # rename ids
+    mmap, rmap = {}, {}
+    used = set()
+
+    def uniq(x):
+        while x in used or not x:
+            x += "_"
+        used.add(x)
+        return x
+
+    for m in rec["mets"]:
+        new = style_id(rng, m["id"], rng.choice(styles)) if rng.random() < 0.7 else m["id"]
+        mmap[m["id"]] = uniq(new)
+    used = set()
+    for r in rec["rxns"]:
+        new = style_id(rng, r["id"], rng.choice(styles)) if rng.random() < 0.7 else r["id"]
+        rmap[r["id"]] = uniq(new)
+    for m in rec["mets"]:
+        m["id"] = mmap[m["id"]]
+    for r in rec["rxns"]:
+        r["id"] = rmap[r["id"]]
+        r["stoich"] = {mmap[k]: v for k, v in r["stoich"].items()}
+    with __import__("warnings").catch_warnings():
+        __import__("warnings").simplefilter("ignore")
+        model = build(rec)
+    model.id = rng.choice(["gen_model", "m-1", "model.v2", "M"])
+    if rng.random() < 0.6:
+        model.name = rng.choice(["A generated model", "Modèle", "x"])
+    if rng.random() < 0.5:
+        model.compartments = {"c": "cytosol", "e": rng.choice(["extracellular", "extracellular space"])}
+    if rng.random() < 0.4:
+        model.notes = dict(rng.choice(NOTES))
+    if rng.random() < 0.4:
+        model.annotation = dict(rng.choice(ANNOTATIONS))
+    for x in list(model.metabolites) + list(model.reactions) + list(model.genes):
+        if rng.random() < 0.4:
+            x.annotation = {k: (list(v) if isinstance(v, list) else v) for k, v in rng.choice(ANNOTATIONS).items()}
+        if rng.random() < 0.3:
+            x.notes = dict(rng.choice(NOTES))
+    for g in model.genes:
+        if rng.random() < 0.5:
+            g.name = rng.choice(["pfkA", "gene name", "b0001"])
+    for m in model.metabolites:
+        if rng.random() < 0.3:
+            m.charge = rng.choice([0, -1, 2, -3])
+        if rng.random() < 0.2:
+            m.formula = rng.choice(["C6H12O6", "H", "C10H12N5O13P3", "Fe"])
+    # coefficients that need all 17 significant digits
+    ugly = [0.1 + 0.2, 1.0 / 3.0, 59.81, 3.7478, 1e-7, 2.0 / 7.0, 123456.789012345, 0.0709]
+    for r in model.reactions:
+        if rng.random() < 0.3 and len(r.metabolites):
+            m_ = rng.choice(sorted(r.metabolites, key=lambda x: x.id))
+            sign = -1 if r.metabolites[m_] < 0 else 1
+            r.add_metabolites({m_: sign * rng.choice(ugly)}, combine=False)
+    if with_groups and rng.random() < 0.5 and len(model.reactions) > 2:
+        kinds = ["collection", "classification", "partonomy"]
+        g1 = cobra.core.Group("grp_rxn", name="some reactions", members=rng.sample(list(model.reactions), 2), kind=rng.choice(kinds))
+        groups = [g1]
+        if rng.random() < 0.5:
+            groups.append(cobra.core.Group("grp_met", name="mets", members=rng.sample(list(model.metabolites), min(2, len(model.metabolites))), kind=rng.choice(kinds)))
+        if rng.random() < 0.4 and len(model.genes):
+            groups.append(cobra.core.Group("grp_gene", name="genes", members=[model.genes[0]], kind=rng.choice(kinds)))
+        model.add_groups(groups)
+    return model, rec
